@@ -155,6 +155,10 @@ class SpyDict(dict):
         self._h("values")
         return self._iter(dict.values(self))
 
+    def copy(self):
+        self._h("copy")
+        return dict.copy(self)  # one C-level operation: atomic under the GIL; the copy is private to the caller
+
     def keys(self):
         self._h("keys")
         return list(dict.keys(self))  # get_iter's cleanup copies the keys first
@@ -247,6 +251,145 @@ def nat_interfere(params, model):
     return {"ok": False, "detail": label, "label": label}
 
 
+# ---------------------------------------------------------------------------- shared plugin CACHE, two real workers
+class SpyCache(SpyDict):
+    """one generation of Context._fixed_plugin_cache[hash] (target -> plugin): every access is a switch point"""
+
+
+def _spy_context(st):
+    """The context's class gets a data descriptor for _fixed_plugin_cache: reading / replacing the attribute and every
+    operation on the per-hash plugin dict call SpyDict.hook (a scheduler switch point)."""
+    import strax
+
+    def wrap(v):
+        if v is None or isinstance(v, SpyCacheOuter):
+            return v
+        return SpyCacheOuter({k: (x if isinstance(x, SpyCache) else SpyCache(x)) for k, x in v.items()})
+
+    class SpyCacheOuter(SpyDict):
+        pass
+
+    class SpyContext(strax.Context):
+        def _get(self):
+            if SpyDict.hook is not None:
+                SpyDict.hook(None, "cache-attr-read")
+            return self.__dict__.get("_spy_cache")
+
+        def _set(self, v):
+            if SpyDict.hook is not None:
+                SpyDict.hook(None, "cache-attr-write")
+            self.__dict__["_spy_cache"] = wrap(v)
+
+        _fixed_plugin_cache = property(_get, _set)
+
+    cur = st.__dict__.pop("_fixed_plugin_cache", None)
+    st.__class__ = SpyContext
+    st.__dict__["_spy_cache"] = wrap(cur)
+    return st
+
+
+def sym_cacherace(budget, warm, targets=("m1", "m2"), window=None, shard=None):
+    """Two REAL workers (threads under the deterministic scheduler) call get_array for two runs on ONE context.  Every
+    access to the shared plugin cache (attribute read / replace, per-hash dict operation, iteration step) is a switch
+    point; the canonical schedule runs one worker after the other, up to `budget` solver-chosen switches deviate."""
+    from symx import conc
+
+    runs = RUNS[:2]
+    MemFrontend, _, _ = ctx.make_storage_classes()
+    tg = tuple(targets) if not isinstance(targets, str) else targets
+    ref = {r: ctx.make_context(_plugins(runs), storage=[MemFrontend()]).get_array(r, tg, processor="single_thread") for r in runs}
+    st = ctx.make_context(_plugins(runs), storage=[MemFrontend()])
+    if warm:
+        st.get_array("1", tg, processor="single_thread")
+    _spy_context(st)
+    state = {"left": budget, "k": 0, "used": [], "last": None}
+
+    def pol(s, r):
+        work = [t for t in r if t.tid != 0]
+        if not work:
+            return r[0]
+        canon = s.current if s.current in work else work[0]
+        state["k"] += 1
+        k = state["k"]
+        if state["left"] <= 0 or len(work) < 2:
+            return canon
+        if shard is not None and state["left"] == budget and k % shard[1] != shard[0]:
+            return canon  # this configuration explores the schedules whose FIRST switch is at a point = shard[0] mod shard[1]
+        if window is not None and state["last"] is not None and k - state["last"] > window:
+            return canon
+        if bool(fresh_bool(f"sw{k}")):
+            state["left"] -= 1
+            state["last"] = k
+            other = [t for t in work if t is not canon][0]
+            state["used"].append((k, other.name))
+            return other
+        return canon
+
+    sched = conc.Sched(pol, max_steps=200000)
+    out, exc = {}, {}
+    import strax.context as sc
+    import _thread
+
+    # locks of the code under test become scheduler locks (a real lock held across a switch point would hang the run)
+    stm = conc.SchedThreading(sched)
+    saved = {n: v for n, v in vars(sc).items() if isinstance(v, (_thread.LockType, _thread.RLock))}
+
+    class SchedMutex:
+        """mutual exclusion under the cooperative scheduler: a waiter gives up the processor until the owner releases"""
+
+        def __init__(self):
+            self.owner, self.cv = None, stm.Condition()
+
+        def acquire(self, *a, **k):
+            me = sched.me()
+            while self.owner is not None and self.owner is not me:
+                self.cv.wait()
+            self.owner = me
+            return True
+
+        def release(self):
+            self.owner = None
+            self.cv.notify_all()
+
+        __enter__ = acquire
+
+        def __exit__(self, *a):
+            self.release()
+
+    for n in saved:
+        setattr(sc, n, SchedMutex())
+
+    def worker(r):
+        try:
+            out[r] = st.get_array(r, tg, processor="single_thread")
+        except (KeyError, RuntimeError, ValueError, AttributeError, TypeError) as e:
+            exc[r] = e
+
+    SpyDict.hook = lambda d, op: sched.pause()
+    try:
+        for r in runs:
+            sched.start(sched.spawn(worker, name=f"run{r}", args=(r,)))
+        sched.finish()
+    finally:
+        SpyDict.hook = None
+        for n, v in saved.items():
+            setattr(sc, n, v)
+    for r in runs:
+        e = exc.get(r)
+        prove(e is None, f"cacherace:get_array of run {r} crashed with {type(e).__name__}: {str(e)[:70]} after switches {state['used']}")
+        prove([int(x) for x in out[r]["id"]] == [int(x) for x in ref[r]["id"]] and
+              [int(x) for x in out[r]["val"]] == [int(x) for x in ref[r]["val"]],
+              f"cacherace:result of run {r} differs from the sequential one after switches {state['used']}")
+    return [state["k"], state["used"]]
+
+
+def nat_cacherace(params, model):
+    label = core.concrete_run(lambda: sym_cacherace(**params), model)
+    if label is None:
+        return {"ok": True, "detail": "no disturbance"}
+    return {"ok": False, "detail": label, "label": label}
+
+
 def sym_twin():
     sym_multirun(2, 1, True)
     prove(False, "twin:reachable")
@@ -267,6 +410,11 @@ def _g_multi(tier):
 
 
 MUTANTS = [
+    dict(name="cached plugins iterated without a snapshot (original defect F-C15c)", file="strax/context.py", only="cacherace",
+         old="        for target, plugin in cached_plugins.copy().items():", new="        for target, plugin in cached_plugins.items():"),
+    dict(name="plugin cache created without the lock (original defect F-C15d)", file="strax/context.py", only="cacherace",
+         old="        with _PLUGIN_CACHE_LOCK:\n            if self._fixed_plugin_cache is None:",
+         new="        if True:\n            if self._fixed_plugin_cache is None:"),
     dict(name="results left in completion order", file="strax/utils.py", only="multirun",
          old="        final_result = [final_result[ind] for ind in stable_argsort(run_id_output)]", new="        pass"),
     dict(name="failed run silently dropped", file="strax/utils.py", only="multirun",
@@ -284,5 +432,12 @@ OBLIGATIONS = [
     Ob("interfere", sym_interfere, lambda tier: [dict(budget=b, warm=w) for b in ((1,) if tier == "quick" else (1, 2))
                                                  for w in (False, True)], nat_interfere, setup=_setup, witnesses=1,
        max_paths=400000),
+    Ob("cacherace", sym_cacherace, lambda tier: [dict(budget=1, warm=False), dict(budget=1, warm=True)]
+       + [dict(budget=2, warm=False, targets="m1", shard=[i, 24]) for i in range(24)]
+       + ([dict(budget=2, warm=False, shard=[i, 48]) for i in range(48)] if tier == "thorough" else []),
+       nat_cacherace, setup=_setup,
+       witnesses=1, max_paths=400000,
+       doc="two real get_array workers on one context, every interleaving with <= budget switches at accesses to the "
+           "shared plugin cache"),
     Ob("twin", sym_twin, lambda tier: [dict()], None, setup=_setup, expect_cex=True),
 ]
